@@ -110,6 +110,9 @@ def gen_case(rng):
                     steps.append('run')
                 steps.append('call:fn%d' % sec)
     steps.append(rng.choice(['stop', 'resolve']))
+    if steps[-1] == 'stop' and rng.random() < 0.6:
+        # the sections are over: the whole file is analysed / run once more, and its lines are the file's lines
+        steps += rng.choice([['verify'], ['verify', 'tifa'], ['verify', 'run'], ['run'], ['tifa']])
     # the learner's file need not be called answer.py
     name = rng.choice(['answer.py', 'answer.py', 'main.py', 'student_code.py', 'hw3_solution.py'])
     return {'file': text, 'name': name, 'independent': independent, 'pattern': None, 'steps': steps, 'plants': plants, 'nsec': nsec}
@@ -151,10 +154,26 @@ def oracle(case, res):
     k = 0
     nsec = (len(secs) - 1) // 2
     file_lines = text.split('\n')
+    stopped = False
     for st in steps:
         op = st['op']
         if op == 'next':
             k += 1
+        if stopped and op in ('verify', 'tifa', 'run'):
+            # the whole file again: any line reported is a line of the file where such a defect was planted
+            kinds_ok = {'verify': ('syntax',), 'tifa': ('tifa',), 'run': ('runtime', 'tifa', 'syntax')}[op]
+            planted = [l for s_, kd, l in case['plants'] if kd in kinds_ok]
+            for f in st['new']:
+                if f['category'] not in ('syntax', 'algorithmic', 'runtime') or f['line'] is None:
+                    continue
+                if op == 'tifa' and f['label'] not in ('initialization_problem', 'iterating_over_non_list', 'iterating_over_empty_list', 'append_to_non_list'):
+                    continue
+                if f['line'] not in planted:
+                    return ('wrong-line:after-stop', 'after stop_sections, %s on the whole file: %s reports line %s; such defects sit on file lines %s'
+                            % (op, f['label'], f['line'], planted))
+            continue
+        if op == 'stop':
+            stopped = True
         if op in ('separate', 'next'):
             if k <= nsec:
                 want = secs[2 * k] if case['independent'] else ''.join(secs[:2 * k + 1])
